@@ -16,7 +16,7 @@ ACTIONS = ["ReadFlag", "EnterCritical", "RecheckFlag", "Fill1", "Fill2", "SetFla
 # several calls on the same objects with a changing number of active threads (StartCall): quick / thorough configurations
 CALLS = {True: ["MC_Threads_calls3"], False: ["MC_Threads_calls_thorough", "MC_Threads_calls3"]}
 MORE = {True: [], False: ["MC_Threads_thorough4"]}      # 4 threads
-WORKLOADS = ["lazy", "rows", "proj", "ll", "lm", "scat", "io"]
+WORKLOADS = ["lazy", "rows", "proj", "ll", "lm", "scat", "io", "norm", "sys"]
 
 
 def counts_of(r):
